@@ -1,5 +1,13 @@
 # id -> (technique, level_claimed.text, design_ref)
 CLAIMED = {
+    "C12": (
+        "type-resolved alphabet/constant agreement lint (AST + go/types), SSA value-flow rules for the cutoff comparison and ignore tests, per-iteration event counting on the CFG (exactly-one-of partition of the rebuild loop), store/counter pairing for the cached length, linear index-safety proofs",
+        "Decides statically the structural clauses of C12 on RemoveCharacterSites, RemoveMajorityCharacterSites, RemoveCharacterSeqs and MaxCharStats, for every input and option combination: the wildcard ignored under ignore-N/X is the constant of the alignment's own alphabet "
+        "(ALL_NUCLE under nucleotides, ALL_AMINO under amino acids; objects resolved by go/types under the controlling alphabet comparison) and its lower-case form is derived from the selected value; the wildcard tests run only under ignoreNs and the gap test only under ignoreGaps; "
+        "the threshold test is float64(count) >= cutoff*float64(total) (non-strict, oriented) with the cutoff==0 && count>0 arm on the same counter, and no cutoff inside [0,1] is rewritten; in the column rebuild each column of each row is either appended to the new row or counted as removed "
+        "(exactly one on every CFG path), the cached length decreases by exactly that counter, kept/rm each receive the column index by one append in the matching arm under the first-row test (so they partition the columns); RemoveCharacterSeqs either counts or re-adds each sequence and returns the counter; "
+        "every row and candidate-list index is proven in bounds. NOT decided: the iff as evaluated on data, the prefix/suffix maxima of ends mode, case folding inside gutils.ContainsRune. Level 'other': necessary structural conditions, not the behaviour.",
+        "DESIGN.md §3 C12"),
     "C04": (
         "linear-inequality guard analysis on go/ssa: path conditions of every success/error return compared (Fourier-Motzkin entailment) with the documented argument domain, universal element facts from validation loops, index-safety proofs for row buffers and the partition table, linear-form comparison of Concat's pad lengths",
         "Decides statically the boundary clause of C04 (positions or windows outside the alignment are rejected with an error rather than a crash or a silently shifted window) for every value of the integer arguments: "
